@@ -88,6 +88,8 @@ CORPUS = [
     ("class-as-slot-attr-value", H + "table(glyph) cA = glyphid(3..6) {collision.flags = 1}; cB = glyphid(7..10); endtable;\ntable(pos) pass(1) {CollisionFix = 3} cA {collision.flags = ANY} cB; endpass; endtable;\n", None, {}),
     ("value-for-attribute-group", H + "table(glyph) cA = glyphid(3..6) {justify.0.stretch = 100m; justify.0 = 100m}; cB = glyphid(7..10); endtable;\n" + OKRULE, None, {}),
     ("empty-rule-item", H + G + "table(sub) cA ( ) > cB cB; endtable;\n", None, {}),
+    ("empty-rule-item-in-context", H + G + "table(sub) cA > cB / ( ) cC _ ; cA > cB / ( ) _ cC; endtable;\n", None, {}),
+    ("segsplit-attribute", H + G + "table(sub) cA > cB {segsplit = 5}; endtable;\ntable(pos) cA {segsplit = 5m}; endtable;\n", None, {}),
     ("zero-extent-glyph-collision", None, None, {"special": "zero-extent"}),
 ]
 
